@@ -22,7 +22,9 @@ def utility_lists(t):
 
 
 def has_gliding_user_cold_utility(prob):
-    return any(u["type"] in ("Cold", "Both") and u["t_supply"] != u["t_target"] for u in prob["utilities"])
+    """A user utility usable as cold utility.  Every such utility has a glide when targeting runs: an isothermal one is given the
+    artificial DT_PHASE_CHANGE (0.1 K) glide, which is "long" for a stream narrower than 0.1 K."""
+    return any(u["type"] in ("Cold", "Both") for u in prob["utilities"])
 
 
 def is_d24(prob, k, kind, clause, t, hu, cu, short_zones):
@@ -32,7 +34,11 @@ def is_d24(prob, k, kind, clause, t, hu, cu, short_zones):
     if not has_gliding_user_cold_utility(prob):
         return False
     if kind == "DI":
-        return clause == 25 and sum(cu) < t.Qc - 1e-6 and abs(sum(hu) - t.Qh) <= 1e-6 * max(1.0, t.Qh)
+        # signature of D24: the hot side closes, the cold side is short, and NO default cold utility was added
+        no_default_cu = all(u.name != "CU" or float(u.heat_flow) == 0.0 for u in t.cold_utilities) and \
+            {u.name for u in t.cold_utilities} <= {x["name"] for x in prob["utilities"]} | {"CU"} and \
+            "CU" not in {u.name for u in t.cold_utilities if float(u.heat_flow) > 0}
+        return clause == 25 and no_default_cu and sum(cu) < t.Qc - 1e-6 and abs(sum(hu) - t.Qh) <= 1e-6 * max(1.0, t.Qh)
     return clause in (21, 22, 25) and id(prob) in short_zones
 
 
